@@ -556,6 +556,7 @@ def prepare_entries(case, rq, bbox):
             s = case['sources'][si]
             e = Entry()
             e.si, e.li, e.s = si, li, s
+            e.cov = None if s['cov'] is None else case['covs'][s['cov'][0]]
             e.name = 'f%d' % si
             e.visible = lay_ok and in_range(s['range'], res)
             e.via_group = via_group
@@ -713,9 +714,14 @@ def compatible(a, b):
         return False
     if sa['tc'] != sb['tc']:
         return False
-    ca = None if sa['cov'] is None else sa['cov'][0]
-    cb = None if sb['cov'] is None else sb['cov'][0]
-    return ca == cb
+    # MapProxy compares coverages by geometry (two separately configured but equal coverages are "the same")
+    if a.cov is None or b.cov is None:
+        return a.cov is None and b.cov is None
+    if a.cov == b.cov:
+        return True
+    if a.cov['kind'] != b.cov['kind']:
+        return False
+    return bool(cov_geom(a.cov).equals(cov_geom(b.cov)))
 
 
 def entry_opaque_decl(e):
